@@ -80,7 +80,7 @@ def real_runs(chk):
     # runs in which one task fails / one worker dies: (m, f, c, fault)
     cfgs = [x + (None,) for x in cfgs]
     faults = [(2, 6, 16, 'raise'), (3, 9, 16, 'kill'), (0, 4, 16, 'raise'),
-              (1, 5, 16, 'kill')]
+              (1, 5, 16, 'kill'), (2, 5, 16, 'vanish'), (4, 3, 16, 'vanish')]
     if not chk.quick:
         faults += [(m, f, 16, k) for m in (2, 4, 8) for f in (3, 17, 40)
                    for k in ('raise', 'kill')]
@@ -109,7 +109,8 @@ def real_runs(chk):
             if fault['path'] == self.info['path'] and os.getpid() != parent:
                 if fault['mode'] == 'raise':
                     raise S.FileSearchException("injected task failure")
-                os.kill(os.getpid(), signal.SIGKILL)
+                if fault['mode'] == 'kill':
+                    os.kill(os.getpid(), signal.SIGKILL)
             return real_exec(self)
 
         def on_alarm(*_):
@@ -156,8 +157,23 @@ def real_runs(chk):
                     for sd_ in sds:
                         s.add(sd_, p)
                 expected_paths = sorted(paths[:f])
+            # catalog lookups are not registrations: asking for the source
+            # id of paths nobody registered must not change the dispatch
+            if ci_ % 2 == 0:
+                for junk in ('/nonexistent/zzz.log', d + '/not-registered'):
+                    try:
+                        s.catalog.get_source_id(junk)
+                    except Exception:  # noqa
+                        pass
             fault['path'], fault['mode'] = None, None
-            if fmode:
+            vanished = None
+            if fmode == 'vanish':
+                # a registered file disappears between add() and run()
+                # (log rotation): its task fails in the worker
+                vanished = expected_paths[(ci_ * 7 + 1) % f]
+                os.rename(vanished, vanished + '.gone')
+                fault['path'], fault['mode'] = vanished, 'none'
+            elif fmode:
                 fault['path'] = expected_paths[(ci_ * 7 + 1) % f]
                 fault['mode'] = fmode
             exc = None
@@ -173,6 +189,8 @@ def real_runs(chk):
                 signal.alarm(0)
                 signal.signal(signal.SIGALRM, old)
             S.os.cpu_count = real_cpu
+            if vanished:
+                os.rename(vanished + '.gone', vanished)
             lines = open(rec).read().split('\n')[:-1] \
                 if os.path.exists(rec) else []
             pids = [int(x.split(' ', 1)[0]) for x in lines]
@@ -261,7 +279,9 @@ def run(chk):
             # FileSearchException, having executed no task twice and used no
             # more processes than the bound
             chk.dist('fault_' + o['fault'])
-            if o['exc'] != 'FileSearchException':
+            if o['exc'] not in (('FileSearchException', 'FileNotFoundError')
+                                if o['fault'] == 'vanish'
+                                else ('FileSearchException',)):
                 chk.violation(f"fault-run-outcome {o['fault']} {o['exc']}", o)
             if not o['at_most_once'] or o['fault_path_runs'] != 1:
                 chk.violation(f"task-executed-twice fault={o['fault']} "
